@@ -80,6 +80,29 @@ def cells(tier):
                             cfg["kb"] = (lay, lay, "object", "record")[(h >> 17) % 4]
                             cfg["spb"] = "momentum" if cfg["fb"] == "m" and cfg["kb"] != "object" and (h >> 19) % 2 else "generic"
                         out.append(cfg)
+        for op in OPS.values():
+            if "synonym" in op.tags or op.result != "vec":
+                continue
+            sec_scalar = [n for n in op.scalars if catalog.SCALAR_KIND[n] in ("angle", "factor", "beta", "gamma")]
+            sec_vector = op.other in ("3", "4", "3or4") and ("boost" in op.tags or "axis" in op.tags)
+            if not sec_scalar and not sec_vector:
+                continue
+            for da in op.self_dims:
+                for db in op.other_dims(da):
+                    if db and not sec_vector:
+                        continue
+                    h = zlib.crc32(f"deep{op.name}{da}{db}{reg}".encode())
+                    if reg and tier == "quick" and h % 3:
+                        continue
+                    SA = R.SYSTEMS[da]
+                    cfg = {"id": f"deep|{op.name}|{da}|{db or ''}|{'reg' if reg else 'unreg'}", "group": "deep", "registered": reg,
+                           "op": op.name, "da": da, "db": db, "sa": R.sysname(SA[h % len(SA)]), "fa": "m" if op.momentum else "gm"[(h >> 5) % 2],
+                           "ka": ("flat", "record")[(h >> 6) % 2], "deep": "vector" if (sec_vector and db) else "scalar"}
+                    if db:
+                        SB = R.SYSTEMS[db]
+                        cfg["sb"] = R.sysname(SB[(h >> 13) % len(SB)])
+                        cfg["fb"] = "gm"[(h >> 15) % 2]
+                    out.append(cfg)
         for d in (2, 3, 4):
             for sa in R.SYSTEMS[d]:
                 for fl in "gm":
@@ -96,7 +119,7 @@ def examples(cell, tier):
 
 
 def strategy(cell, tier):
-    if cell["group"] == "op":
+    if cell["group"] in ("op", "deep"):
         one = opcheck.case_strategy(OPS[cell["op"]], cell["db"], "f64", None)
     else:
         one = st.fixed_dictionaries({"a": gen.vec(("moderate",)), "b": gen.vec(("moderate",)), "s": st.fixed_dictionaries({
@@ -117,6 +140,8 @@ def check_case(cell, elems, ctx):
     _ensure_mode(cell)
     if cell["group"] == "op":
         _check_op(cell, elems, ctx)
+    elif cell["group"] == "deep":
+        _check_deep(cell, elems, ctx)
     else:
         _check_record(cell, elems, ctx)
 
@@ -196,6 +221,119 @@ def _check_op(cell, elems, ctx):
     if cell["ka"] not in ("flat", "regular"):
         ctx.nontrivial(sample={"call": where, "structure": str(want)[:200]})
     ctx.stratum(cell["ka"])
+    ctx.evaluations -= 1
+
+
+DEEP_COUNTS = [1, 2, 0, 3, 1, 2]  # secondary values per vector of the (shallower) operand; 9 values in all
+
+
+def _check_deep(cell, elems, ctx):
+    """the secondary argument (angle, factor, velocity, axis, booster) is one list level DEEPER than the vector operand:
+    the result takes the broadcast structure (one vector per secondary value), every item is a vector record equal to the
+    object-backend result for (vector i, secondary value ij), and the operand's extra fields are broadcast along."""
+    op = OPS[cell["op"]]
+    if "order" in op.scalars:
+        for e in elems:
+            e["s"]["order"] = elems[0]["s"]["order"]
+    da, db = cell["da"], cell["db"]
+    sa = opcheck.parse_system(cell["sa"])
+    be = "awkward-registered" if cell["registered"] else "awkward"
+    mom = cell["fa"] == "m"
+    variant = f"deep-{cell['deep']}|{cell['ka']}|{da}{cell['sa']}" + (f"+{db}{cell['sb']}" if db else "")
+    where = f"{op.name} [{variant}; {be}]"
+    rows_a = lattice.rows_for(sa, [e["a"]["c"] for e in elems], da)
+    if rows_a is None:
+        ctx.exclude("operand_not_representable")
+        return
+    single = cell["ka"] == "record"
+    nvec = 1 if single else lattice.N
+    counts = [3] if single else DEEP_COUNTS
+    charge = [1, -1, 0, 2, -2, 1]
+    flat = build.ak_flat(sa, rows_a, mom, "generic", {"charge": numpy.array(charge)})
+    A = flat[0] if single else flat
+    # secondary values: nsec = sum(counts), taken from the generated elements cyclically
+    nsec = sum(counts)
+    owner = [i for i, c in enumerate(counts) for _ in range(c)]
+    sec_elems = [elems[(k * 5 + 1) % lattice.N] for k in range(nsec)]
+    sc_obj = []
+    if cell["deep"] == "vector":
+        sb = opcheck.parse_system(cell["sb"])
+        rows_b = lattice.rows_for(sb, [e["b"]["c"] for e in sec_elems], db)
+        if rows_b is None:
+            ctx.exclude("operand_not_representable")
+            return
+        fb = build.ak_flat(sb, rows_b, cell["fb"] == "m")
+        B = fb if single else ak.unflatten(fb, counts)
+        sc = dict(elems[0]["s"])
+        sc_obj = [dict(sc) for _ in range(nsec)]
+    else:
+        B = None
+        sc = {}
+        sc_obj = [dict(elems[0]["s"]) for _ in range(nsec)]
+        for name in op.scalars:
+            kind = catalog.SCALAR_KIND[name]
+            if kind in ("angle", "factor", "beta", "gamma"):
+                vals = [e["s"][name] for e in sec_elems]
+                arr = ak.Array(numpy.array(vals))
+                sc[name] = arr if single else ak.unflatten(arr, counts)
+                for k in range(nsec):
+                    sc_obj[k][name] = vals[k]
+            else:
+                sc[name] = elems[0]["s"][name]
+    try:
+        res = op.call(A, B, sc)
+    except Exception as e:  # noqa: BLE001
+        if isinstance(e, ZeroDivisionError):
+            ctx.exclude("singular")
+            return
+        ctx.fail("exception", f"{where} raised {type(e).__name__}: {e!s:.300}", op=op.name, variant=variant, backend=be)
+        return
+    ctx.evaluation(nsec)
+    want_skel = [0] * 3 if single else [[0] * c for c in counts]
+    kind = lattice.classify(res)
+    if kind != "awkward-array":
+        ctx.fail("behavior", f"{where}: result is {type(res).__name__} ({kind}), not an Awkward vector array", op=op.name, variant=variant, backend=be)
+        return
+    got_skel = build.vector_skeleton(res)
+    if got_skel != want_skel:
+        ctx.fail("structure", f"{where}: result structure {got_skel} (type {res.type}) but broadcasting the operand against its deeper "
+                 f"secondary argument gives {want_skel}", op=op.name, variant=variant, backend=be)
+        return
+    try:
+        item = res[0] if single else res[0][0]
+    except Exception as e:  # noqa: BLE001
+        ctx.fail("structure", f"{where}: the result (type {res.type}) cannot be indexed down to a vector: {type(e).__name__}", op=op.name,
+                 variant=variant, backend=be)
+        return
+    if lattice.classify(item) != "awkward-record":
+        ctx.fail("behavior", f"{where}: innermost items are {type(item).__name__}, not vector records", op=op.name, variant=variant, backend=be)
+        return
+    if "charge" in ak.fields(res) or "boost" not in op.tags:
+        want_charge = [charge[0]] * 3 if single else [[charge[i]] * c for i, c in enumerate(counts)]
+        if "charge" not in ak.fields(res) or ak.to_list(res["charge"]) != want_charge:
+            ctx.fail("extra_fields", f"{where}: extra field 'charge' is {ak.to_list(res['charge']) if 'charge' in ak.fields(res) else 'missing'}, "
+                     f"expected the operand's values broadcast: {want_charge}", op=op.name, variant=variant, backend=be)
+            return
+    sysr, rows = lattice.read_vector_rows(res)
+    if len(rows) != nsec:
+        ctx.fail("structure", f"{where}: {len(rows)} result vectors for {nsec} secondary values", op=op.name, variant=variant, backend=be)
+        return
+    for k in range(nsec):
+        va = mpbackend.make(sa, rows_a[owner[k]], mom, False)
+        vb = mpbackend.make(opcheck.parse_system(cell["sb"]), rows_b[k], cell["fb"] == "m", False) if cell["deep"] == "vector" else None
+        try:
+            ref = op.call(va, vb, sc_obj[k])
+        except Exception:  # noqa: BLE001
+            continue
+        rs, rst = obs.system_of(ref), obs.stored(ref)
+        c1, c2 = R.to_cartesian(sysr, rows[k]), R.to_cartesian(rs, rst)
+        if not all(obs.finite(x) for x in c2):
+            continue
+        if len(c1) != len(c2) or not opcheck.vec_close(c1, c2, mpf("1e-9"), R.scale_of(c1, c2)):
+            ctx.fail("value", f"{where}: result {k} (vector {owner[k]}) is {sysr}{opcheck.fmt(rows[k])}, the object backend gives "
+                     f"{rs}{opcheck.fmt(rst)}", op=op.name, variant=variant, backend=be)
+            return
+    ctx.nontrivial(sample={"call": where, "counts": counts})
     ctx.evaluations -= 1
 
 
